@@ -15,7 +15,8 @@ func init() {
 		id:  "C16",
 		run: runC16,
 		explanation: "Decided (structural, for every file content and every query sequence): " +
-			"C16.opensites — every bbolt.Open call site in non-test module code is enumerated and classified by role; output sites (writer Flush, big-mode output of `updog create`) pass an OpenFile hook built by openfile.OpenFile with the constant option FailIfFileExists:true, input and scratch sites with FailIfFileDoesntExist:true; an unclassifiable site is undecided; " +
+			"C16.opensites — every bbolt.Open call site in non-test module code is enumerated and classified by role; output sites (writer Flush, big-mode output of `updog create`) pass an OpenFile hook built by openfile.OpenFile with the constant option FailIfFileExists:true, input and scratch sites with FailIfFileDoesntExist:true; a site in a helper or in the Flush of a writer type of the command gets the role of the helper's callers (which have to agree), the helper's path parameter bound to the call's argument (scratch only for the name of the command's own os.CreateTemp file); the Options may be assembled step by step, built by a helper or handed to the helper that opens, the hook may be wrapped in a function literal that only forwards its parameters to it and returns its results; an unclassifiable site is undecided; " +
+			"C16.openopts — the output and input sites agree on the bbolt options that decide what a commit leaves in the file (NoFreelistSync: a file written without a freelist page is rewritten by the first read-write open with default options; PageSize); FreelistType is not compared, it only selects the in-memory free page tracker; " +
 			"C16.flags — in openfile.OpenFile the hook returned for FailIfFileExists calls os.OpenFile with flags|O_EXCL (so an existing file of any content makes the open fail before anything is written), the one for FailIfFileDoesntExist with flags&^O_CREATE, and FailIfFileExists is tested first; " +
 			"C16.readonly — from the read entry points (OpenIndex, OpenIndexFromBoltDatabase, all index options, Execute, GetSchema, Close, the sql driver's connection/statement methods, the gRPC handler, `updog schema`) no call resolves to a bbolt write API (Update, Batch, Begin(writable), Commit, Put, Delete, CreateBucket*, DeleteBucket, sequences) or to a file-mutating os call. " +
 			"C16.noclobber — no os call that removes, truncates, renames or rewrites a path is applied to an index output path (path of an exclusive-create bbolt.Open, filename of NewIndexWriter) unless the same call of the function created the file (dominated by the successful exclusive open); scratch files from os.CreateTemp are exempt. " +
@@ -133,11 +134,21 @@ type openSite struct {
 	call      *ssa.Call
 	exists    *bool // constant value of FailIfFileExists passed to openfile.OpenFile, nil if not constant / no hook
 	notExists *bool
-	hook      bool // Options.OpenFile is the result of openfile.OpenFile
+	hook      bool // Options.OpenFile is the result of openfile.OpenFile (possibly behind a forwarding wrapper, see openHookOf)
 	optsNil   bool
 	fields    map[string]string // every field of the bbolt.Options literal that is set, with its (constant) value
+	// role of the file that is opened: "output" (an index file that is created), "input" (an index file that is read),
+	// "scratch" (a temporary file the create command made itself), "" if the census cannot tell (roleWhy says why);
+	// anchor is the entry whose work the site belongs to (the writer's Flush, OpenIndex, the create command).
+	role    string
+	anchor  *ssa.Function
+	roleWhy string
 }
 
+// boltOpenSites enumerates every bbolt.Open call of non-test module code, evaluates its Options and classifies it by
+// role. The call may sit in the anchor itself (Flush, OpenIndex, createCmd), in a function literal of it, or in a helper:
+// a helper's site gets the role of the helper's callers (all of them, they have to agree), the helper's path parameter
+// being bound to the call's argument where the role depends on the path (scratch file or output of the create command).
 func boltOpenSites(c *Ctx) []openSite {
 	var out []openSite
 	for _, fn := range c.w.ModFuncs {
@@ -147,48 +158,81 @@ func boltOpenSites(c *Ctx) []openSite {
 				return
 			}
 			s := openSite{fn: fn, call: call, fields: map[string]string{}}
+			s.role, s.anchor, s.roleWhy = openSiteRole(c, fn, call.Call.Args[0], false, 4, map[*ssa.Function]bool{})
 			opts := call.Call.Args[2]
 			if isNilConst(opts) {
 				s.optsNil = true
 				out = append(out, s)
 				return
 			}
-			// opts = &bbolt.Options{OpenFile: openfile.OpenFile(openfile.Options{…})}: find the store to field OpenFile of that alloc
-			if al, ok := peel(opts).(*ssa.Alloc); ok {
-				for _, r := range referrers(al) {
-					fa, ok := r.(*ssa.FieldAddr)
-					if !ok {
-						continue
-					}
-					f := fieldOf(fa.X.Type(), fa.Field)
-					if f == nil {
-						continue
-					}
-					for _, rr := range referrers(fa) {
-						if st, ok := rr.(*ssa.Store); ok && st.Addr == ssa.Value(fa) {
-							if k, ok := st.Val.(*ssa.Const); ok && k.Value != nil {
-								s.fields[f.Name()] = k.Value.ExactString()
-							} else if k, ok := st.Val.(*ssa.Const); ok && k.Value == nil {
-								s.fields[f.Name()] = "zero"
-							} else {
-								s.fields[f.Name()] = "<non-constant>"
+			// opts = &bbolt.Options{OpenFile: openfile.OpenFile(openfile.Options{…})}: find the store to field OpenFile of that
+			// alloc. Options assembled step by step (literal, then assignments to fields) are the same alloc; so are options
+			// that a module helper builds and returns, and options a helper receives from its only caller.
+			if aliases := optionsObject(c, opts, 3); aliases != nil {
+				type fieldStore struct {
+					f  *types.Var
+					st *ssa.Store
+				}
+				var stores []fieldStore
+				for _, al := range aliases {
+					for _, r := range referrers(al) {
+						switch r := r.(type) {
+						case *ssa.Store:
+							// the whole struct is assigned (o := *someOptions): every field takes an unknown value, except for a
+							// copy of bbolt.DefaultOptions, which sets none of the fields the census looks at
+							if r.Addr == al && !isBoltDefaultOptions(r.Val) {
+								s.fields["*"] = "<non-constant>"
+							}
+						case *ssa.FieldAddr:
+							f := fieldOf(r.X.Type(), r.Field)
+							if f == nil {
+								continue
+							}
+							for _, rr := range referrers(r) {
+								if st, ok := rr.(*ssa.Store); ok && st.Addr == ssa.Value(r) {
+									stores = append(stores, fieldStore{f, st})
+								}
+							}
+						case *ssa.Call:
+							// handed to a function other than bbolt.Open (`tune(opts)`): what that does to the fields is not followed
+							// (the call that binds it to the helper's parameter, another alias of the list, is followed)
+							if f := calleeFunc(&r.Call); r != call && calleeName(&r.Call) != "go.etcd.io/bbolt.Open" {
+								for k, a := range r.Call.Args {
+									if a == al && !(f != nil && k < len(f.Params) && isAlias(aliases, f.Params[k])) {
+										s.fields["*"] = "<non-constant>"
+									}
+								}
 							}
 						}
 					}
-					if f.Name() != "OpenFile" {
+				}
+				nHooks := 0
+				for _, fs := range stores {
+					val := "<non-constant>"
+					if k, ok := fs.st.Val.(*ssa.Const); ok && k.Value != nil {
+						val = k.Value.ExactString()
+					} else if ok && k.Value == nil {
+						val = "zero"
+					}
+					// a field assigned different values at different places (literal, then `opts.X = …` under a condition)
+					// has no single constant value
+					if old, seen := s.fields[fs.f.Name()]; seen && old != val {
+						val = "<non-constant>"
+					}
+					s.fields[fs.f.Name()] = val
+					if fs.f.Name() != "OpenFile" {
 						continue
 					}
-					for _, rr := range referrers(fa) {
-						st, ok := rr.(*ssa.Store)
-						if !ok || st.Addr != ssa.Value(fa) {
-							continue
-						}
-						hc, ok := peel(st.Val).(*ssa.Call)
-						if !ok || calleeFunc(&hc.Call) != c.a.OpenFileFn {
-							continue
-						}
-						s.hook = true
-						s.exists, s.notExists = openfileOptions(hc.Call.Args[0])
+					// every hook that is assigned has to be an openfile hook, and they have to be built from the same options
+					hook, ex, nex := openHookOf(c, fs.st.Val, 3)
+					nHooks++
+					switch {
+					case nHooks == 1:
+						s.hook, s.exists, s.notExists = hook, ex, nex
+					case !hook || !s.hook:
+						s.hook, s.exists, s.notExists = false, nil, nil
+					case !sameBoolPtr(s.exists, ex) || !sameBoolPtr(s.notExists, nex):
+						s.exists, s.notExists = nil, nil
 					}
 				}
 			}
@@ -196,6 +240,286 @@ func boltOpenSites(c *Ctx) []openSite {
 		})
 	}
 	return out
+}
+
+func isAlias(aliases []ssa.Value, v ssa.Value) bool {
+	for _, a := range aliases {
+		if a == v {
+			return true
+		}
+	}
+	return false
+}
+
+func sameBoolPtr(a, b *bool) bool {
+	if a == nil || b == nil {
+		return a == b
+	}
+	return *a == *b
+}
+
+// isBoltDefaultOptions: v is a load of the package-level variable bbolt.DefaultOptions.
+func isBoltDefaultOptions(v ssa.Value) bool {
+	ld, ok := v.(*ssa.UnOp)
+	if !ok || ld.Op != token.MUL {
+		return false
+	}
+	if ld2, ok := ld.X.(*ssa.UnOp); ok && ld2.Op == token.MUL {
+		g, ok := ld2.X.(*ssa.Global)
+		return ok && g.Pkg != nil && g.Pkg.Pkg.Path() == "go.etcd.io/bbolt" && g.Name() == "DefaultOptions"
+	}
+	return false
+}
+
+// optionsObject resolves the *bbolt.Options argument of a bbolt.Open call to the one Options object it points to and
+// returns every SSA value that denotes this object on the way (the fields may be assigned through any of them):
+// the literal's allocation itself; through a call of a module helper, the single object the helper returns on all of its
+// returns (`return &bbolt.Options{…}`, also through a further helper that adjusts and returns it); for a parameter of a
+// helper, the argument of the helper's only static call. nil if there is no such single object (the site is then
+// reported as having no recognisable hook).
+func optionsObject(c *Ctx, v ssa.Value, depth int) []ssa.Value {
+	v = peel(v)
+	switch x := v.(type) {
+	case *ssa.Alloc:
+		return []ssa.Value{x}
+	case *ssa.Call, *ssa.Extract:
+		if depth <= 0 {
+			return nil
+		}
+		_, _, vals, ok := resultOrigins(c.w, v)
+		if !ok {
+			return nil
+		}
+		var obj []ssa.Value
+		for k, rv := range vals {
+			o := optionsObject(c, rv, depth-1)
+			if o == nil || (k > 0 && o[len(o)-1] != obj[len(obj)-1]) {
+				return nil
+			}
+			if k == 0 {
+				obj = o
+			} else {
+				obj = append(o[:len(o)-1:len(o)-1], obj...)
+			}
+		}
+		return append([]ssa.Value{v}, obj...)
+	case *ssa.Parameter:
+		if depth <= 0 {
+			return nil
+		}
+		sites := staticCallSites(c, x.Parent())
+		if len(sites) != 1 {
+			return nil
+		}
+		if arg := argFor(sites[0], x.Parent(), x); arg != nil {
+			if o := optionsObject(c, arg, depth-1); o != nil {
+				return append([]ssa.Value{v}, o...)
+			}
+		}
+	}
+	return nil
+}
+
+// staticCallSites: the calls of fn in non-test module code, nil if fn is also used as a value (it can then be called
+// from places the census does not see) or called in a go / defer statement.
+func staticCallSites(c *Ctx, fn *ssa.Function) []*ssa.Call {
+	var out []*ssa.Call
+	escapes := false
+	for _, g := range c.w.ModFuncs {
+		allInstrs(g, func(i ssa.Instruction) {
+			if cc := callCommon(i); cc != nil && !cc.IsInvoke() && cc.Value == ssa.Value(fn) {
+				if call, ok := i.(*ssa.Call); ok {
+					out = append(out, call)
+				} else {
+					escapes = true
+				}
+				for _, a := range cc.Args {
+					if a == ssa.Value(fn) {
+						escapes = true
+					}
+				}
+				return
+			}
+			for _, op := range i.Operands(nil) {
+				if op != nil && *op == ssa.Value(fn) {
+					escapes = true
+				}
+			}
+		})
+	}
+	if escapes {
+		return nil
+	}
+	return out
+}
+
+// openHookOf evaluates the value assigned to bbolt.Options.OpenFile: hook is true if the file is opened by a hook that
+// openfile.OpenFile built, exists/notExists are the constant options it was built from (nil if not constant). Accepted:
+//   - the call openfile.OpenFile(openfile.Options{…}) itself (also through a local variable assigned once);
+//   - a module helper that returns such a hook on every return (all returns have to agree);
+//   - a parameter of the helper that opens the file, bound to the argument of the helper's only call;
+//   - a function literal that only forwards: its single call is the call of such a hook with the literal's own
+//     (name, flag, perm) parameters, unchanged and in this order, and every return returns that call's two results.
+//     What the literal does besides (remember that the file was created, count) does not change how the file is
+//     opened; a literal with any other call, with changed arguments or with a return that does not come from the hook
+//     (a fallback to os.OpenFile when the exclusive create fails) is not accepted, so the site is reported.
+func openHookOf(c *Ctx, v ssa.Value, depth int) (hook bool, exists, notExists *bool) {
+	v = peel(v)
+	if depth <= 0 {
+		return false, nil, nil
+	}
+	switch x := v.(type) {
+	case *ssa.Call:
+		if calleeFunc(&x.Call) == c.a.OpenFileFn && c.a.OpenFileFn != nil {
+			exists, notExists = openfileOptions(x.Call.Args[0])
+			return true, exists, notExists
+		}
+		_, _, vals, ok := resultOrigins(c.w, x)
+		if !ok {
+			return false, nil, nil
+		}
+		for k, rv := range vals {
+			h, ex, nex := openHookOf(c, rv, depth-1)
+			if !h {
+				return false, nil, nil
+			}
+			if k > 0 && (!sameBoolPtr(ex, exists) || !sameBoolPtr(nex, notExists)) {
+				return true, nil, nil
+			}
+			exists, notExists = ex, nex
+		}
+		return true, exists, notExists
+	case *ssa.Parameter:
+		// the hook is handed to the helper that opens the file: the argument of the helper's only call
+		sites := staticCallSites(c, x.Parent())
+		if len(sites) != 1 {
+			return false, nil, nil
+		}
+		if arg := argFor(sites[0], x.Parent(), x); arg != nil {
+			return openHookOf(c, arg, depth-1)
+		}
+	case *ssa.MakeClosure:
+		lit, ok := x.Fn.(*ssa.Function)
+		if !ok || lit.Blocks == nil || len(lit.Params) != 3 || lit.Signature.Results().Len() != 2 {
+			return false, nil, nil
+		}
+		var inner *ssa.Call
+		clean := true
+		allInstrs(lit, func(i ssa.Instruction) {
+			switch i := i.(type) {
+			case *ssa.Call:
+				if inner != nil {
+					clean = false
+				}
+				inner = i
+			case *ssa.Go, *ssa.Defer, *ssa.Panic, *ssa.MakeClosure:
+				clean = false
+			}
+		})
+		if !clean || inner == nil || inner.Call.IsInvoke() || len(inner.Call.Args) != 3 {
+			return false, nil, nil
+		}
+		for k, a := range inner.Call.Args {
+			if a != ssa.Value(lit.Params[k]) {
+				return false, nil, nil
+			}
+		}
+		allInstrs(lit, func(i ssa.Instruction) {
+			ret, ok := i.(*ssa.Return)
+			if !ok {
+				return
+			}
+			for k, rv := range retVals(ret) {
+				if e, ok := rv.(*ssa.Extract); !ok || e.Tuple != ssa.Value(inner) || e.Index != k {
+					clean = false
+				}
+			}
+		})
+		if !clean {
+			return false, nil, nil
+		}
+		return openHookOf(c, inner.Call.Value, depth-1)
+	}
+	return false, nil, nil
+}
+
+// openSiteRole classifies a bbolt.Open site in fn with path argument pathv (nil if unknown): the role of the file and
+// the anchor it belongs to. temp is true if the path is already known to name a file made by os.CreateTemp.
+//   - a site in the in-memory writer's Flush creates an index: output; a site in OpenIndex reads one: input;
+//   - a site in the create command's function is scratch if its path is the name of a file the command made with os.CreateTemp, output otherwise
+//     (an unknown path is taken to be the output: that is the stricter demand, O_EXCL);
+//   - a site in a function literal belongs to the enclosing function (peel resolves captured variables);
+//   - a site in any other function gets the role of that function's callers (call graph, so a method called through an
+//     interface — the command's own writer type, whose Flush createCmd invokes — has createCmd as its caller); a path
+//     that is a parameter is bound to the argument of a static call. Callers with different roles (a helper shared by
+//     readers and writers), no caller at all, or a chain deeper than the bound leave the site unclassified: undecided.
+func openSiteRole(c *Ctx, fn *ssa.Function, pathv ssa.Value, temp bool, depth int, onPath map[*ssa.Function]bool) (role string, anchor *ssa.Function, why string) {
+	if pathv != nil && !temp && fromCreateTemp(pathv) {
+		temp = true
+	}
+	root := fn
+	for root.Parent() != nil {
+		root = root.Parent()
+	}
+	if pathv != nil {
+		pathv = peel(pathv)
+	}
+	switch {
+	case root == c.a.MemFlush && root != nil:
+		return "output", root, ""
+	case root == c.a.OpenIndex && root != nil:
+		return "input", root, ""
+	case root == c.a.CreateCmd && root != nil:
+		if temp {
+			return "scratch", root, ""
+		}
+		return "output", root, ""
+	}
+	if depth <= 0 || onPath[root] {
+		return "", nil, "the chain of helpers between the site and a writer's Flush, OpenIndex or the create command is too deep or recursive"
+	}
+	onPath[root] = true
+	defer delete(onPath, root)
+	node := c.w.CG.Nodes[root]
+	type res struct {
+		role   string
+		anchor *ssa.Function
+	}
+	var got []res
+	seenCaller := map[ssa.Instruction]bool{}
+	if node != nil {
+		for _, e := range node.In {
+			g := e.Caller.Func
+			if g == nil || !c.w.inModule(g) || e.Site == nil || seenCaller[e.Site] {
+				continue
+			}
+			seenCaller[e.Site] = true
+			// a synthetic wrapper (promoted method, bound method) is a caller like any other; it forwards its parameters
+			var bound ssa.Value
+			if p, ok := pathv.(*ssa.Parameter); ok && p.Parent() == root {
+				cc := e.Site.Common()
+				if !cc.IsInvoke() && cc.Value == ssa.Value(root) {
+					if call, ok := e.Site.(*ssa.Call); ok {
+						bound = argFor(call, root, p)
+					}
+				}
+			}
+			r, a, w := openSiteRole(c, g, bound, temp, depth-1, onPath)
+			if r == "" {
+				return "", nil, "called from " + safeFname(g) + ": " + w
+			}
+			got = append(got, res{r, a})
+		}
+	}
+	if len(got) == 0 {
+		return "", nil, "the function is not called from a writer's Flush, OpenIndex or the create command"
+	}
+	for _, r := range got[1:] {
+		if r.role != got[0].role {
+			return "", nil, "the function is called both for a file in the role " + got[0].role + " and for one in the role " + r.role
+		}
+	}
+	return got[0].role, got[0].anchor, ""
 }
 
 // openfileOptions extracts the constant fields of an openfile.Options struct value built by a composite literal.
@@ -253,29 +577,14 @@ func openfileOptions(v ssa.Value) (exists, notExists *bool) {
 func openSitesRule(c *Ctx, rule string) {
 	sites := boltOpenSites(c)
 	c.r.Stats["bbolt_open_sites"] = len(sites)
-	roleOf := func(s openSite) string {
-		switch s.fn {
-		case c.a.MemFlush:
-			return "output"
-		case c.a.OpenIndex:
-			return "input"
-		case c.a.CreateCmd:
-			// scratch: the path comes from os.CreateTemp's file; output: anything else
-			if fromCreateTemp(s.call.Call.Args[0]) {
-				return "scratch"
-			}
-			return "output"
-		}
-		return ""
-	}
 	idx := map[string]int{}
 	for _, s := range sites {
-		role := roleOf(s)
+		role := s.role
 		idx[safeFname(s.fn)]++
 		key := fmt.Sprintf("%s#%d", safeFname(s.fn), idx[safeFname(s.fn)])
 		pos := c.w.ipos(s.call)
 		if role == "" {
-			c.r.undecided(rule, key, "bbolt.Open call site that the census cannot classify as input, output or scratch", pos)
+			c.r.undecided(rule, key, "bbolt.Open call site that the census cannot classify as input, output or scratch ("+s.roleWhy+")", pos)
 			continue
 		}
 		key += " (" + role + ")"
@@ -299,15 +608,23 @@ func openSitesRule(c *Ctx, rule string) {
 	c.r.expect(rule, 4)
 	// sibling agreement on options that determine the on-disk format: a writer option the reader does not use makes
 	// bbolt rewrite parts of the file (freelist, meta page) on the first read-write open.
-	formatFields := []string{"NoFreelistSync", "FreelistType", "PageSize"}
+	// (FreelistType is not among them: it only selects the in-memory structure — array or hashmap — in which an open
+	// database tracks its free pages, bbolt's newFreelist; the freelist page that a commit writes is the same sorted list
+	// of page ids for both, bbolt.Open does not compare the option with the file, and a read-write open of a file that
+	// has a freelist page writes nothing whichever type wrote it. What makes the first read-open write is a file
+	// WITHOUT a freelist page, i.e. NoFreelistSync on the writing side only.)
+	formatFields := []string{"NoFreelistSync", "PageSize"}
 	type sv struct{ site, val string }
 	for _, ff := range formatFields {
 		var vals []sv
 		for _, s := range sites {
-			if roleOf(s) == "scratch" || roleOf(s) == "" {
+			if s.role == "scratch" || s.role == "" {
 				continue
 			}
 			v := s.fields[ff]
+			if v == "" && s.fields["*"] != "" {
+				v = s.fields["*"] // the Options were copied from somewhere as a whole: the field's value is not known
+			}
 			if v == "" || v == "zero" || v == "false" || v == "0" || v == `""` {
 				v = "default"
 			}
